@@ -121,7 +121,19 @@ fn run_part(ctx: &GenCtx, profile: &'static str, n: u64, deadline: Option<Instan
                             Some(p) => p,
                             None => continue,
                         };
-                        let rep: RunReport = run_plan(&plan, false);
+                        // "-proc" profiles: one fresh child process per run, so that the process history the
+                        // library sees (statics, thread-locals, call counts) is a pure function of the plan
+                        let rep: RunReport = if profile.ends_with("-proc") {
+                            match run_plan_in_child(&plan) {
+                                Some(r) => r,
+                                None => {
+                                    skipped.fetch_add(1, Ordering::SeqCst);
+                                    continue;
+                                }
+                            }
+                        } else {
+                            run_plan(&plan, false)
+                        };
                         stats.merge(&rep.stats);
                         local.push(RunLite {
                             idx: i,
@@ -147,6 +159,79 @@ fn run_part(ctx: &GenCtx, profile: &'static str, n: u64, deadline: Option<Instan
     let (mut runs, stats) = Arc::try_unwrap(out).ok().unwrap().into_inner().unwrap();
     runs.sort_by_key(|r| r.idx);
     (runs, stats, skipped.load(Ordering::SeqCst) as u64)
+}
+
+/// Serialisable subset of a run report, exchanged with `hss-sim exec-plan` children.
+pub fn report_to_json(rep: &RunReport) -> Value {
+    json!({
+        "violations": rep.violations.iter().map(|v| json!({"property": v.property, "key": v.key, "oracle": v.oracle, "detail": v.detail, "op_index": v.op_index})).collect::<Vec<_>>(),
+        "event_hash": rep.event_hash, "signature": rep.signature, "events": rep.events,
+        "steps": rep.stats.steps, "sign_calls": rep.stats.sign_calls, "releases": rep.stats.releases, "keygens": rep.stats.keygens,
+        "verifications": rep.stats.verifications, "oracle_evals": rep.stats.oracle_evals, "hash_finalisations": rep.stats.hash_finalisations,
+        "fault_fired": rep.stats.fault_fired, "probes": rep.stats.probes, "nontrivial": rep.stats.nontrivial,
+        "states": rep.stats.states.iter().collect::<Vec<_>>(), "shapes": rep.stats.shapes.iter().collect::<Vec<_>>(),
+    })
+}
+pub fn report_from_json(j: &Value) -> Option<RunReport> {
+    let mut rep = RunReport::default();
+    for v in j["violations"].as_array()? {
+        rep.violations.push(Violation {
+            property: v["property"].as_str()?.to_string(),
+            key: v["key"].as_str()?.to_string(),
+            oracle: v["oracle"].as_str()?.to_string(),
+            detail: v["detail"].as_str()?.to_string(),
+            op_index: v["op_index"].as_u64()? as usize,
+        });
+    }
+    rep.event_hash = j["event_hash"].as_u64()?;
+    rep.signature = j["signature"].as_u64()?;
+    rep.events = j["events"].as_array()?.iter().filter_map(|e| e.as_str().map(|s| s.to_string())).collect();
+    let st = &mut rep.stats;
+    st.steps = j["steps"].as_u64()?;
+    st.sign_calls = j["sign_calls"].as_u64()?;
+    st.releases = j["releases"].as_u64()?;
+    st.keygens = j["keygens"].as_u64()?;
+    st.verifications = j["verifications"].as_u64()?;
+    st.oracle_evals = j["oracle_evals"].as_u64()?;
+    st.hash_finalisations = j["hash_finalisations"].as_u64()?;
+    st.nontrivial = j["nontrivial"].as_bool()?;
+    for (k, v) in j["fault_fired"].as_object()? {
+        st.fault_fired.insert(k.clone(), v.as_u64()?);
+    }
+    for (k, v) in j["probes"].as_object()? {
+        st.probes.insert(k.clone(), v.as_u64()?);
+    }
+    for v in j["states"].as_array()? {
+        st.states.insert(v.as_u64()?);
+    }
+    for v in j["shapes"].as_array()? {
+        st.shapes.insert(v.as_str()?.to_string());
+    }
+    Some(rep)
+}
+/// `hss-sim exec-plan`: read a plan from stdin, execute it as the first thing this process does, print
+/// the report.
+pub fn exec_plan_main() -> i32 {
+    let mut s = String::new();
+    if std::io::Read::read_to_string(&mut std::io::stdin(), &mut s).is_err() {
+        return 2;
+    }
+    let plan: Plan = match serde_json::from_str(&s) {
+        Ok(p) => p,
+        Err(_) => return 2,
+    };
+    let rep = run_plan(&plan, true);
+    println!("{}", report_to_json(&rep));
+    0
+}
+pub fn run_plan_in_child(plan: &Plan) -> Option<RunReport> {
+    use std::io::Write;
+    let exe = std::env::current_exe().ok()?;
+    let mut child = std::process::Command::new(exe).arg("exec-plan").stdin(std::process::Stdio::piped()).stdout(std::process::Stdio::piped()).stderr(std::process::Stdio::null()).spawn().ok()?;
+    child.stdin.take()?.write_all(serde_json::to_string(plan).ok()?.as_bytes()).ok()?;
+    let out = child.wait_with_output().ok()?;
+    let j: Value = serde_json::from_slice(&out.stdout).ok()?;
+    report_from_json(&j)
 }
 
 fn repo_head() -> (String, bool) {
@@ -294,11 +379,13 @@ pub fn run_check(spec: &CheckSpec, tier: &str, seed: u64) -> i32 {
         }
         let plan = gen::generate(&ctx, profile, *idx).expect("plan regenerates");
         let base = format!("{}-{}-{}-{}", spec.property, seed, profile, idx);
-        let full = run_plan(&plan, true);
+        let in_child = profile.ends_with("-proc");
+        let full = if in_child { run_plan_in_child(&plan).unwrap_or_default() } else { run_plan(&plan, true) };
         let orig_path = replays.join(format!("{}.json", base));
         write_replay(&orig_path, v, &plan, &full.events);
-        let min_plan = shrink::minimise(&plan, &v.property, &v.key, 45);
-        let min_rep = run_plan(&min_plan, true);
+        // plans of "-proc" profiles depend on the whole process history they create: not shrunk
+        let min_plan = if in_child { plan.clone() } else { shrink::minimise(&plan, &v.property, &v.key, 45) };
+        let min_rep = if in_child { full.clone() } else { run_plan(&min_plan, true) };
         let mv = min_rep.violations.iter().find(|x| x.property == v.property && x.key == v.key).cloned().unwrap_or_else(|| v.clone());
         let min_path = replays.join(format!("{}-min.json", base));
         write_replay(&min_path, &mv, &min_plan, &min_rep.events);
